@@ -211,7 +211,17 @@ class MonotoneBest(Facet):
             from geneticengine.algorithms.gp.operators.combinators import ParallelStep
 
             # only the top-level elitism step (which sees the complete previous generation) is counted
-            root = ParallelStep([CountingElitism()] + [build_step(x) for x in j[1][1:]], list(j[2]))
+            subs = [CountingElitism()] + [build_step(x) for x in j[1][1:]]
+            ws = list(j[2])
+            pos = case["seed"] % len(subs)  # the elitism step at a generated position
+            subs[0], subs[pos] = subs[pos], subs[0]
+            ws[0], ws[pos] = ws[pos], ws[0]
+            root = ParallelStep(subs, ws)
+            if case["seed"] % 3 == 0:
+                # the same composition behind another step: the parallel step is then handed a generator
+                from geneticengine.algorithms.gp.operators.combinators import IdentityStep, SequenceStep
+
+                root = SequenceStep(IdentityStep(), root)
             gp = GeneticProgramming(problem=problem, budget=GenBudget(case["gens"]), representation=w.rep, random=w.random, tracker=tracker, population_size=P, step=root)
             try:
                 gp.search()
